@@ -46,8 +46,8 @@ def conv(v):
 
 def step_of(last):
     a = last['a']
-    if a == 'Apply':
-        return {'a': 'Apply', 'o': conv(last['o'])}
+    if a in ('Apply', 'PersistWith'):
+        return {'a': a, 'o': conv(last['o'])}
     return {'a': a}     # Replay / Catchup: the driver takes the operation from its own log
 
 
@@ -153,14 +153,21 @@ def feats(b):
     window = []
     persisted_window = None
     since_snapshot = []
+    flagops = {}     # stream -> pause / resume / read-only operations applied to it so far
     for i, s in enumerate(steps):
         a = s['a']
-        if a == 'Apply':
+        if a == 'PersistWith':
+            f.add(('persist-with', s['o']['op']))
+        if a in ('Apply', 'PersistWith'):
             op = s['o']['op']
+            if op in ('Pause', 'Resume', 'SetReadonly'):
+                flagops.setdefault(s['o'].get('s'), []).append(op + (':%s' % s['o']['b'] if op == 'SetReadonly' else ''))
             if prev:
                 f.add(('pair', prev, op))
             prev = op
             tgt = (op, s['o'].get('s'), s['o'].get('p'), s['o'].get('g'))
+            if a == 'PersistWith' and snap_at is not None:
+                persisted_window, snap_at = list(window), None    # the snapshot holds what was applied before
             if snap_at is not None:
                 window.append(tgt)
             since_snapshot.append(op)
@@ -170,6 +177,9 @@ def feats(b):
             persisted_window, snap_at = list(window), None
         elif a in ('Restart', 'Install'):
             f.add(('recovery', a, 'snap' if persisted_window is not None else 'nosnap', tuple(since_snapshot[-3:])))
+            # what a recovery meets: the last flag operations of each stream (read-only -> pause -> resume -> restart ...)
+            for q in flagops.values():
+                f.add(('flags-before', a, 'snap' if persisted_window is not None else 'nosnap', tuple(q[-3:])))
             if persisted_window is not None:
                 for tgt in persisted_window:
                     f.add(('late', tgt[0]))
@@ -208,7 +218,7 @@ def select(pool, n, quota=3):
 
 def nontrivial(b):
     acts = [s['a'] for s in b['steps']]
-    ops = [s['o']['op'] for s in b['steps'] if s['a'] == 'Apply']
+    ops = [s['o']['op'] for s in b['steps'] if s['a'] in ('Apply', 'PersistWith')]
     return 'Restart' in acts and len(ops) >= 2 and len(set(ops)) >= 2
 
 
@@ -217,13 +227,13 @@ def key(b):
 
 
 def features(b, line_action):
-    ops = [s['o']['op'] for s in b['steps'] if s['a'] == 'Apply']
+    ops = [s['o']['op'] for s in b['steps'] if s['a'] in ('Apply', 'PersistWith')]
     f = []
     if 'DeleteStream' in ops:
         f.append('delete')
     if any(o in ops for o in ('CreateGroup', 'JoinGroup')):
         f.append('groups')
-    if any(s['a'] == 'Apply' and s['o']['op'] in ('CreateGroup', 'JoinGroup') and len(s['o']['S']) > 1 for s in b['steps']):
+    if any(s['a'] in ('Apply', 'PersistWith') and s['o']['op'] in ('CreateGroup', 'JoinGroup') and len(s['o']['S']) > 1 for s in b['steps']):
         f.append('multi')   # some member consumes more than one stream: assignments depend on the history
     if 'LeaveGroup' in ops:
         f.append('leave')   # a member left: a heap entry without subscribers can exist (it is not rebuilt by Restore)
@@ -348,10 +358,17 @@ def run(rep, tier, seed, replay):
     #            idle member, delete + re-create under a living group, restart / install incl. an EMPTY snapshot
     fam = (['MC_MetadataFSM_replay.cfg'] if quick else ['MC_MetadataFSM_replay_streams.cfg', 'MC_MetadataFSM_replay_groups.cfg'])
     executed_classes = 0
-    for cfg in fam + ['MC_MetadataFSM_replay_late.cfg', 'MC_MetadataFSM_replay_install.cfg']:
+    #   _flags   one partition; create, pause, resume, read-only on/off, log <= 4, incl. Persist CONCURRENT with an apply
+    #            (PersistWith, also in _late): what a restart / install meets after any flag history
+    for cfg in fam + ['MC_MetadataFSM_replay_late.cfg', 'MC_MetadataFSM_replay_install.cfg', 'MC_MetadataFSM_replay_flags.cfg']:
         g = graph.tlc_dump('MC_MetadataFSM.tla', cfg, workers=min(core.NCPU, 8), timeout=1500)
         gb, cv, tt = from_graph(g, 0)
         total += tt
+        if quick and cfg == 'MC_MetadataFSM_replay_flags.cfg':
+            # budget: the quick tier executes the behaviours of this family that cover every feature (flag history in
+            # front of a recovery, operation inside a Persist, ...) three times; the thorough tier executes all
+            gb, _ = select(gb, 350)
+            cv = len({i for b in gb for i in b['_edges']})
         if quick and (cfg == 'MC_MetadataFSM_replay_install.cfg' or os.environ.get('VERIF_C06_SYMMETRY')):
             # budget: of the largest family the quick tier executes one behaviour per symmetry class (consumer /
             # stream / broker names by order of first appearance); the transitions really executed are counted
